@@ -251,7 +251,13 @@ pub fn native(cfg: &cgv_core::fw::RunCfg, extra: &mut cgv_core::fw::Extra) {
                 let a = a.normalize();
                 let ax: Vector3<$T> = ax.normalize().cast().unwrap();
                 // arc between a and b on the 3-sphere = half the rotation angle of g
-                let arc = 10f64.powf(rng.uniform($min_exp, 0.49));
+                // one case in four: nearly orthogonal pairs, a.b = +-10^-k (acos is at its best there,
+                // asin / sqrt(1 - dot^2) forms at their worst)
+                let arc = if rng.chance(1, 4) {
+                    std::f64::consts::FRAC_PI_2 + 10f64.powi(-(rng.range(1, 12) as i32)) * if rng.bool() { 1.0 } else { -1.0 }
+                } else {
+                    10f64.powf(rng.uniform($min_exp, 0.49))
+                };
                 let g = Quaternion::from_axis_angle(ax.normalize(), Rad((2.0 * arc) as $T));
                 let b = (a * g).normalize();
                 let b = if rng.bool() { -b } else { b };
@@ -270,6 +276,15 @@ pub fn native(cfg: &cgv_core::fw::RunCfg, extra: &mut cgv_core::fw::Extra) {
                         // half way: equidistant from both ends
                         let h = f(0.5);
                         w = w.max((d(h, a) - d(h, bp)).abs());
+                        // constant angular speed (slerp, outside the close-together fallback):
+                        // the chord from a to slerp(t) is 2 sin(t * arc / 2) with arc the angle between a and +-b
+                        let dot = (a.dot(bp) as f64).min(1.0);
+                        if slerp && dot < 0.999 {
+                            let whole = 2.0 * (d(a, bp) / 2.0).min(1.0).asin();
+                            for t in [0.25, 0.5, 0.75] {
+                                w = w.max((d(f(t as $T), a) - 2.0 * (t * whole / 2.0).sin()).abs());
+                            }
+                        }
                     }
                     w
                 });
@@ -300,7 +315,7 @@ pub fn native(cfg: &cgv_core::fw::RunCfg, extra: &mut cgv_core::fw::Extra) {
     extra.samples.push(json!({"clause": "native_endpoints", "example": "a random unit, b = a*g with g a rotation by 2*arc, arc = 3e-9 rad: nlerp(a,b,1) = +-b, slerp(a,b,0) = a, |.| = 1, midpoint equidistant"}));
     extra.sections.insert(
         "native_endpoints".into(),
-        json!({"cases": evals, "arcs": "log-uniform 1e-12..3 rad (f64), 1e-6..3 rad (f32), both signs of the dot product",
+        json!({"cases": evals, "arcs": "log-uniform 1e-12..3 rad (f64), 1e-6..3 rad (f32), one in four pi/2 +- 10^-k (nearly orthogonal), both signs of the dot product; slerp chord at t = 1/4, 1/2, 3/4 against 2 sin(t arc / 2)",
                "worst_f64": worst[0], "tolerance_f64": 1e-12, "worst_f32": worst[1], "tolerance_f32": 1e-5}),
     );
 }
